@@ -29,7 +29,10 @@ class Bundle(CborArray):
             if isinstance(blk.payload, AdminRecord):
                 self.primary.setfieldval('bundle_flags', self.primary.getfieldval('bundle_flags') | PrimaryBlock.Flag.PAYLOAD_ADMIN)
                 blk.setfieldval('type_code', Bundle.BLOCK_TYPE_PAYLOAD)
-                blk.setfieldval('btsd', bytes(blk.payload))
+                if blk.getfieldval('btsd') is None:
+                    # only a record made here needs encoding, a received
+                    # one keeps the octets it came with
+                    blk.setfieldval('btsd', bytes(blk.payload))
 
     def self_build(self, field_pos_list=None):
         # Special handling for admin payload
